@@ -18,7 +18,12 @@ at one replica only.  `outside_region_diverges` below replays the 3-op Orswot wi
 
 **The region proved here: op-only histories without key removes** — `CMap.ReachUp ops U s L`: the derivations of `CMap.Reach`
 that use only `init` and `apply` of updates `.up d k o` (same discipline premise: each actor's updates arrive in issue order;
-duplicates allowed; `ops` an ARBITRARY value type).  Every such derivation is a `CMap.Reach` derivation (`reachUp_toReach`).
+duplicates allowed).  Items 1 and 2 hold for an ARBITRARY value type.  Item 3 (convergence) needs the value type to have a
+representation system of its own (`RepSys` / `RepSysE`: Orswot, MVReg, order-free types); **a nested `Map` has none** – an inner
+key remove is an OUTER update, so depth-2 Maps diverge even inside this region (`Witness.Depth2Orswot.depth2_diverges_inside_region`,
+`Witness.Depth2MVReg.depth2_mvreg_reads_diverge`, kernel-checked) – hence nothing is claimed for nested contents at depth ≥ 2 beyond
+the key level of every Map on the way down (C05.key_present_iff applies to the inner Maps' key structure only where they are
+themselves derivable, which the outer reset breaks).  Every such derivation is a `CMap.Reach` derivation (`reachUp_toReach`).
 In this region:
 
 1. `deferred` stays empty and `applyDeferred` is the identity (`deferred_stays_empty`, `applyDeferred_identity`);
